@@ -16,6 +16,7 @@ const (
 	fDrop     = 'D' // request processed, response discarded
 	fDupFirst = 'U' // request processed twice, first response applied
 	fDupLast  = 'V' // request processed twice, second response applied
+	fDupBoth  = 'W' // request processed twice, both responses applied in order (random part only)
 	fStale1   = 'S' // response held and applied after the client's next exchange
 	fStale2   = 'T' // response held and applied after the client's next two exchanges
 )
@@ -65,11 +66,11 @@ func init() {
 		ID:      "C07",
 		Level:   "fault_enumeration",
 		Workers: 16,
-		Rule: fmt.Sprintf("the harness is the network (direct mode over the real service). Exhaustive part: %d exchange patterns of 2-3 clients x %d local-operation masks x every assignment of at most two faults {drop response, duplicate request (first / second response applied), stale response applied after 1 / 2 later exchanges} to the five exchanges x {counter, list} = %d plans (the quick tier enumerates the counter half), each followed by fault-free syncing to quiescence; random part: long histories (<= 80 steps, <= 5 clients, all four types, fault probability 0.2). Oracle: store invariants (C06), every operation issued on a subscribed datatype is stored exactly once, every replica equals the fault-free replay of the stored log and the server's rebuild, remote handlers saw no operation twice and never an own one; ",
+		Rule: fmt.Sprintf("the harness is the network (direct mode over the real service). Exhaustive part: %d exchange patterns of 2-3 clients x %d local-operation masks x every assignment of at most two faults {drop response, duplicate request (first / second response applied), stale response applied after 1 / 2 later exchanges} to the five exchanges x {counter, list} = %d plans (the quick tier enumerates the counter half), each followed by fault-free syncing to quiescence; random part: long histories (<= 80 steps, <= 5 clients, all four types, fault probability 0.2; additionally a duplicated request whose two responses are both applied, in order). Oracle: store invariants (C06), every operation issued on a subscribed datatype is stored exactly once, every replica equals the fault-free replay of the stored log and the server's rebuild, remote handlers saw no operation twice and never an own one; ",
 			len(c07Patterns), len(c07OpMasks), c07Exhaustive()) +
 			"non-trivial = a fault changed the message flow (a dropped or duplicated exchange carried >= 1 operation, or a stale response was applied after a newer one); distinct = the plan (exhaustive) / hash of the step script (random)",
 		Assumptions: []string{
-			"in the enumerated plans faults are placed on exchanges of clients that have completed a fault-free first sync; half of the random histories also lose the response of entry (create / subscribe / subscribe-or-create) requests",
+			"in the enumerated plans faults are placed on exchanges of clients that have completed a fault-free first sync; half of the random histories also lose the response of entry (create / subscribe / subscribe-or-create) requests or duplicate the entry request and apply both responses",
 			"MongoDB / MQTT are the in-memory stand-ins",
 		},
 		Trusted:    []string{"fakemongo", "fakemqtt", "harness transport (direct mode)", "monitors in /verif/harness"},
@@ -144,7 +145,7 @@ func (x *c07world) exchange(cl *bed.Client, f byte) (string, string) {
 			x.nt = true
 		}
 		w.c.Count("faults_drop_response", 1)
-	case fDupFirst, fDupLast:
+	case fDupFirst, fDupLast, fDupBoth:
 		ex2, sig, msg := send()
 		if sig != "" {
 			return sig, msg
@@ -155,6 +156,12 @@ func (x *c07world) exchange(cl *bed.Client, f byte) (string, string) {
 		w.c.Count("faults_duplicate_request", 1)
 		toApply = ex.Resp
 		if f == fDupLast {
+			toApply = ex2.Resp
+		}
+		if f == fDupBoth {
+			if sig, msg := apply(ex.Resp, "first (of a duplicated request)"); sig != "" {
+				return sig, msg
+			}
 			toApply = ex2.Resp
 		}
 	case fStale1, fStale2:
@@ -169,6 +176,11 @@ func (x *c07world) exchange(cl *bed.Client, f byte) (string, string) {
 	}
 	if sig, msg := apply(toApply, "current"); sig != "" {
 		return sig, msg
+	}
+	if f == fDupBoth {
+		if d := x.dts[cl]; d != nil {
+			w.c.Step("%s after both responses: state %v view %s", cl.Alias, d.DT.GetState(), clip(d.View(), 120))
+		}
 	}
 	// stale responses that are due
 	var keep []*heldResp
@@ -276,11 +288,19 @@ func newC07WorldFaultyEntry(c *core.Case, typ string, ncli int) (*c07world, stri
 				w.localOp(d) // part of the creation
 			}
 		}
-		if r.Intn(2) == 0 {
+		switch r.Intn(4) {
+		case 0, 1:
 			if sig, msg := x.exchange(cl, fDrop); sig != "" {
 				return x, sig, msg
 			}
 			x.nt = true
+		case 2:
+			// the entry request is duplicated on the way and both responses reach the client
+			if sig, msg := x.exchange(cl, fDupBoth); sig != "" {
+				return x, sig, msg
+			}
+			x.nt = true
+			w.c.Count("entry_requests_duplicated_both_responses_applied", 1)
 		}
 		for try := 0; try < 3 && d.DT.GetState() != model.StateOfDatatype_SUBSCRIBED; try++ {
 			if _, sig, msg := w.sync(cl); sig != "" {
@@ -382,7 +402,7 @@ func c07Random(c *core.Case) *core.Result {
 	ncli := 2 + r.Intn(4)
 	c.Step("random type=%s clients=%d", typ, ncli)
 	mk := newC07World
-	if c.Index%2 == 1 {
+	if (c.Index/4)%2 == 1 { // independent of the type, which is c.Index%4
 		mk = newC07WorldFaultyEntry
 	}
 	x, sig, msg := mk(c, typ, ncli)
@@ -402,6 +422,9 @@ func c07Random(c *core.Case) *core.Result {
 		f := byte(fNormal)
 		if r.Float64() < 0.2 {
 			f = c07Faults[r.Intn(len(c07Faults))]
+			if r.Intn(6) == 0 {
+				f = fDupBoth
+			}
 		}
 		if sig, msg := x.exchange(cl, f); sig != "" {
 			return verdict(c, "", sig, msg)
